@@ -21,6 +21,7 @@ import tempfile
 from harness import rt, pool
 
 _F = None
+_INTERESTING = {}
 FILES = None
 
 
@@ -30,6 +31,8 @@ def worker_init():
     import aiuti.filelock as F
     _F = F
     FILES = pool.aiuti_files()
+    global _INTERESTING
+    _INTERESTING = {FILES['filelock']: rt.interesting_lines(FILES['filelock'])}
 
 
 class Shim:
@@ -119,6 +122,7 @@ def execute(sc):
                             trace_files=[FILES['filelock']] if trace else (),
                             opcode_files=[FILES['filelock']] if sc.get('opcodes') else (),
                             max_steps=sc.get('max_steps', 40000)))
+    ctl.interesting = _INTERESTING
     shim = Shim(ctl)
     for f in sc.get('faults', []):
         shim.plan.setdefault(f['site'], set()).add(f['nth'])
